@@ -6,6 +6,7 @@ _ENGINES = {
     "C04": ("sims.histsim", "HistSim"),
     "C07": ("sims.modesim", "ModeSim"),
     "C08": ("sims.optsim", "OptSim"),
+    "C11": ("sims.framesim", "FrameSim"),
 }
 
 
